@@ -415,3 +415,388 @@ def uk7(model):
             r.fail(a, 'an empty environment name is recorded as unknown: the list of unknown names gets an '
                    'empty line', witness='a text that ends with \\begin, or contains \\begin{}; --unkn')
     return r
+
+
+# ----------------------------------------------------------------------------- MT4b / AT3 / LC4
+def mt4b(model):
+    from .. import tables
+    r = RuleResult('MT4b', 'the punctuation that a formula hands on to the text is exactly . , ; : (C10 '
+                   'and C11 name these four): Parameters.math_punctuation contains nothing else', floor=1)
+    v, n = tables.parameters_table(model, 'math_punctuation')
+    if not isinstance(v, (list, tuple)):
+        # a computed table: look for the literal it is computed from
+        f = model.func('parameters.Parameters.init_math_collections') if model.has_func(
+            'parameters.Parameters.init_math_collections') else None
+        src = None
+        for fn in model.cls('parameters.Parameters').methods.values():
+            for s in iter_scope(fn.node):
+                if isinstance(s, ast.Assign) and unparse(s.targets[0]) == 'self.math_punctuation':
+                    src = s
+        if src is not None:
+            names = [x.attr for x in ast.walk(src.value) if isinstance(x, ast.Attribute) and unparse(x.value) == 'self']
+            for nm in names:
+                v2, n2 = tables.parameters_table(model, nm)
+                if isinstance(v2, (list, tuple)):
+                    v, n = list(v2), src
+    if not isinstance(v, (list, tuple)):
+        r.undec(model.mod('parameters').tree, 'math_punctuation is not a literal table')
+        r.instances = 1
+        return r
+    extra = [x for x in v if x not in ('.', ',', ';', ':')]
+    missing = [x for x in ('.', ',', ';', ':') if x not in v]
+    if extra or missing:
+        r.fail(n, 'math_punctuation is %r: %s' % (list(v), ('the characters %r of a formula would be copied '
+               'behind its placeholder (n! becomes C-C-C!)' % extra) if extra else ('%r is no longer kept' % missing)),
+               stmt='math_punctuation table', witness='$n!$  /  $P = NP?$')
+    else:
+        r.ok(n, 'math_punctuation is . , ; :', nontrivial=True)
+    return r
+
+
+def at3(model):
+    r = RuleResult('AT3', 'nesting levels are brace levels everywhere: iter_token_levels (used to find the '
+                   'row separators of \\substack) changes the level only for { and }', floor=1)
+    f = model.func('parser.Parser.iter_token_levels')
+    lits = set()
+    for n in iter_scope(f.node):
+        if isinstance(n, ast.Compare) and unparse(n.left).endswith('.txt'):
+            for c in n.comparators:
+                if isinstance(c, ast.Constant):
+                    lits.add(c.value)
+                elif isinstance(c, (ast.Tuple, ast.List, ast.Set)):
+                    lits |= {e.value for e in c.elts if isinstance(e, ast.Constant)}
+    if not lits:
+        r.undec(f.node, 'level tests of iter_token_levels not recognised')
+        r.instances = 1
+    elif lits <= {'{', '}'}:
+        r.ok(f.node, 'levels are counted for { and } only', nontrivial=True)
+    else:
+        r.fail(f.node, 'iter_token_levels also counts %r as nesting: an unbalanced bracket inside \\substack '
+               '(a half-open interval) hides the row separator behind it' % sorted(lits - {'{', '}'}),
+               stmt='level characters', witness='\\substack{x \\in [0,1) \\\\ y \\in (0,1]}')
+    return r
+
+
+def lc4(model):
+    r = RuleResult('LC4', 'language settings are looked up through the normalisation of the language code '
+                   '(check_parser_lang: ru-RU -> ru): parser_lang_settings is never indexed with a raw '
+                   'code', floor=2)
+    for m in model.mods.values():
+        for n in ast.walk(m.tree):
+            key = None
+            if isinstance(n, ast.Subscript) and isinstance(n.ctx, ast.Load) and unparse(n.value).endswith('parser_lang_settings'):
+                key = n.slice
+            elif isinstance(n, ast.Call) and isinstance(n.func, ast.Attribute) and n.func.attr == 'get' \
+                    and unparse(n.func.value).endswith('parser_lang_settings') and n.args:
+                key = n.args[0]
+            if key is None:
+                continue
+            vals = T.resolve_local(model, key) if isinstance(key, ast.Name) else [key]
+            if vals and all(isinstance(v, ast.Call) and T.call_name(v) == 'check_parser_lang' for v in vals):
+                r.ok(n, 'key normalised by check_parser_lang', nontrivial=True)
+            elif isinstance(key, ast.Constant):
+                r.ok(n, 'literal key', sample=False)
+            else:
+                fn = next((a for a in _anc(n) if isinstance(a, ast.FunctionDef)), None)
+                if fn is not None and fn.name == 'check_parser_lang':
+                    r.ok(n, 'inside the normalisation', sample=False)
+                    continue
+                r.fail(n, 'parser_lang_settings is looked up with %s, not with check_parser_lang(..): a code '
+                       'like ru-RU or RU is not found and the English tables are used' % unparse(key)[:40],
+                       witness='--language ru-RU --equation-punctuation display')
+    return r
+
+
+# ----------------------------------------------------------------------------- EM8 / DT1c / TX3 / IX17
+def em8(model):
+    r = RuleResult('EM8', 'scanner errors are marked at the start of the faulty token: every error_token '
+                   'call passes the start parameter of its scan method (an index inside the text), '
+                   'not a position computed behind it', floor=2)
+    cls = model.cls('scanner.Scanner')
+    for f in cls.methods.values():
+        for c in ast.walk(f.node):
+            if isinstance(c, ast.Call) and T.call_name(c) == 'error_token' and c.args:
+                pos = c.args[-1]
+                holder = next((a for a in _anc(c) if isinstance(a, ast.FunctionDef) and a.name in cls.methods), None)
+                params = [a.arg for a in holder.args.args] if holder is not None else []
+                if isinstance(pos, ast.Name) and pos.id in params:
+                    stores = [x for x in ast.walk(holder) if isinstance(x, ast.Name) and x.id == pos.id
+                              and isinstance(x.ctx, ast.Store)]
+                    if not stores:
+                        r.ok(c, 'error mark at the token start %s' % pos.id, nontrivial=True)
+                        continue
+                r.fail(c, 'the error mark is placed at %s, not at the start of the token: for a fault at the '
+                       'end of the text the position lies behind the last character' % unparse(pos)[:30],
+                       witness='a text that ends with \\verb')
+    return r
+
+
+def dt1c(model):
+    r = RuleResult('DT1c', '\\\\ always becomes a blank: the branch of expand_sequence for \\\\ appends its '
+                   'SpaceToken unconditionally', floor=1)
+    f = model.func('parser.Parser.expand_sequence')
+    hit = False
+    for n in iter_scope(f.node):
+        if isinstance(n, ast.If) and isinstance(n.test, ast.Compare) and unparse(n.test.left).endswith('.txt') \
+                and T.is_const(n.test.comparators[0], '\\\\') and isinstance(n.test.ops[0], ast.Eq):
+            hit = True
+            top = [s for s in n.body if isinstance(s, ast.Expr) and isinstance(s.value, ast.Call)
+                   and T.call_name(s.value) in ('append', 'extend') and any(
+                       isinstance(c, ast.Call) and T.call_name(c) == 'SpaceToken' for c in ast.walk(s))]
+            top += [s for s in n.body if isinstance(s, ast.AugAssign) and any(
+                isinstance(c, ast.Call) and T.call_name(c) == 'SpaceToken' for c in ast.walk(s))]
+            if top:
+                r.ok(top[0], 'the blank for \\\\ is appended unconditionally', nontrivial=True)
+            else:
+                r.fail(n, 'the blank for \\\\ is appended only under a condition (or not at all): "A \\\\B" '
+                       'loses a character of the documented replacement', witness='A \\\\B  ->  expected "A  B"')
+    if not hit:
+        r.undec(f.node, 'branch for \\\\ not recognised')
+        r.instances = 1
+    return r
+
+
+def tx3(model):
+    r = RuleResult('TX3', 'tex2txt has no shortcut in front of the parser: every return follows the call of '
+                   'Parser.parse (blank-only input comes back unchanged with the identity map)', floor=1)
+    f = model.func('tex2txt.tex2txt')
+    calls = [c.lineno for c in iter_scope(f.node) if isinstance(c, ast.Call) and T.call_name(c) == 'parse']
+    if not calls:
+        raise AnalysisError('anchor vanished: Parser.parse call in tex2txt')
+    first = min(calls)
+    for n in iter_scope(f.node):
+        if isinstance(n, ast.Return):
+            if n.lineno < first:
+                r.fail(n, 'tex2txt returns %s before the text is parsed' % unparse(n.value)[:40] if n.value else 'None',
+                       witness="tex2txt(' \\n', Options())  ->  expected (' \\n', [1, 2])")
+            else:
+                r.ok(n, 'return behind the parse', sample=False)
+    return r
+
+
+def ix17(model):
+    r = RuleResult('IX17', 'the first / last character of a token text is taken only where the text is '
+                   'known to be non-empty (LanguageTokens and action tokens have empty text)', floor=3)
+    for f in model.all_funcs():
+        if isinstance(f.node, ast.Lambda) or f.mod.short.startswith('shell') or f.mod.short == 'scanner':
+            continue
+        for n in iter_scope(f.node):
+            if not (isinstance(n, ast.Subscript) and isinstance(n.ctx, ast.Load) and isinstance(n.value, ast.Attribute)
+                    and n.value.attr == 'txt' and not isinstance(n.slice, ast.Slice)):
+                continue
+            idx = n.slice
+            if isinstance(idx, ast.UnaryOp):
+                idx = idx.operand
+            if not (isinstance(idx, ast.Constant) and isinstance(idx.value, int)):
+                continue
+            base = unparse(n.value)
+            bases = {base}
+            tv0 = n.value.value
+            if isinstance(tv0, ast.Name):
+                for v0 in T.resolve_local(model, tv0):
+                    if isinstance(v0, ast.Call) and unparse(v0.func) in ('copy.copy', 'copy.deepcopy') and v0.args:
+                        bases.add(unparse(v0.args[0]) + '.txt')     # a copy has the same text
+
+            def nonempty(e, t):
+                if t and unparse(e) in bases:
+                    return True
+                if not t and isinstance(e, ast.UnaryOp) and unparse(e.operand) in bases:
+                    return True
+                if isinstance(e, ast.Compare) and len(e.ops) == 1 and unparse(e.left) == 'len(%s)' % base \
+                        and isinstance(e.comparators[0], ast.Constant) and isinstance(e.comparators[0].value, int):
+                    k, op = e.comparators[0].value, e.ops[0]
+                    if t and ((isinstance(op, ast.Eq) and k >= 1) or (isinstance(op, ast.Gt) and k >= 0)
+                              or (isinstance(op, ast.GtE) and k >= 1) or (isinstance(op, ast.NotEq) and k == 0)):
+                        return True
+                    if not t and ((isinstance(op, ast.Eq) and k == 0) or (isinstance(op, ast.Lt) and k >= 1)
+                                  or (isinstance(op, ast.LtE) and k >= 0)):
+                        return True
+                if t and isinstance(e, ast.Call) and T.call_name(e) in ('strip', 'isalpha', 'isspace', 'isdigit') \
+                        and unparse(e.func.value) == base:
+                    return True
+                # type test for a class whose text is never empty (scanner-made text tokens)
+                if t and isinstance(e, ast.Compare) and isinstance(e.left, ast.Call) and getattr(e.left.func, 'id', '') == 'type' \
+                        and unparse(e.left.args[0]) == unparse(n.value.value) \
+                        and unparse(e.comparators[0]).split('.')[-1] in ('TextToken', 'SpecialToken', 'MacroToken',
+                                                                      'MathElemToken', 'MathOperToken'):
+                    return True
+                return False
+            def by_search():
+                # L[v].txt[k] where v = next((i for i in range(..) if <test of L[i]>), -1) and v >= 0 holds:
+                # the element found satisfies the test of the search
+                tokx = n.value.value
+                if not (isinstance(tokx, ast.Subscript) and isinstance(tokx.slice, ast.Name)):
+                    return False
+                v = tokx.slice.id
+                lst = unparse(tokx.value)
+                if not guards.has_fact(n, lambda e, t: t and isinstance(e, ast.Compare) and unparse(e.left) == v
+                                       and isinstance(e.ops[0], (ast.GtE, ast.Gt))):
+                    return False
+                vals = T.resolve_local(model, tokx.slice)
+                if not vals:
+                    return False
+                for val in vals:
+                    if not (isinstance(val, ast.Call) and getattr(val.func, 'id', '') == 'next' and val.args
+                            and isinstance(val.args[0], ast.GeneratorExp)):
+                        return False
+                    g = val.args[0].generators[0]
+                    if not isinstance(g.target, ast.Name):
+                        return False
+                    el = '%s[%s]' % (lst, g.target.id)
+                    okc = False
+                    for c in g.ifs:
+                        fs = []
+                        guards.split_fact(c, True, fs)
+                        for e, t in fs:
+                            if t and unparse(e) in (el + '.txt', el + '.txt.strip()'):
+                                okc = True
+                            if t and isinstance(e, ast.Compare) and isinstance(e.left, ast.Call) \
+                                    and getattr(e.left.func, 'id', '') == 'type' and unparse(e.left.args[0]) == el \
+                                    and unparse(e.comparators[0]).split('.')[-1] in ('TextToken', 'SpecialToken', 'MacroToken') \
+                                    and isinstance(e.ops[0], (ast.Is, ast.Eq)):
+                                okc = True
+                    if not okc:
+                        return False
+                return True
+            def tested_elsewhere():
+                # flow-insensitive fallback: the token (or the token it is a copy of) is tested for its
+                # class or for non-empty text in a condition of this function that leaves a loop or the
+                # function (search loop with break / else: return)
+                roots = {unparse(n.value.value)}
+                tv = n.value.value
+                if isinstance(tv, ast.Name):
+                    for v in T.resolve_local(model, tv):
+                        if isinstance(v, ast.Call) and unparse(v.func) in ('copy.copy', 'copy.deepcopy') and v.args:
+                            roots.add(unparse(v.args[0]))
+                for c in iter_scope(f.node):
+                    if isinstance(c, ast.If) and any(isinstance(x, (ast.Break, ast.Return, ast.Continue)) for x in c.body + c.orelse):
+                        fs = []
+                        guards.split_fact(c.test, True, fs)
+                        guards.split_fact(c.test, False, fs)
+                        for e, t in fs:
+                            if unparse(e) in {r_ + '.txt' for r_ in roots}:
+                                return True
+                            if isinstance(e, ast.UnaryOp) and unparse(e.operand) in {r_ + '.txt' for r_ in roots}:
+                                return True
+                            if isinstance(e, ast.Compare) and isinstance(e.left, ast.Call) and getattr(e.left.func, 'id', '') == 'type' \
+                                    and e.left.args and unparse(e.left.args[0]) in roots:
+                                return True
+                return False
+            if guards.has_fact(n, nonempty):
+                r.ok(n, '%s under a test that the text is not empty' % unparse(n), nontrivial=True)
+            elif tested_elsewhere():
+                r.ok(n, '%s: the token is tested in an exit condition of this function' % unparse(n), nontrivial=True)
+            elif by_search():
+                r.ok(n, '%s: the index was found by a search for a token with text' % unparse(n), nontrivial=True)
+            else:
+                r.fail(n, '%s is evaluated without a test of %s: a token with empty text (LanguageToken kept by '
+                       'the line clean-up, action token) raises IndexError' % (unparse(n), base),
+                       witness="\\'{\\foreignlanguage{german}{a}} in multi-language mode")
+    return r
+
+
+# ----------------------------------------------------------------------------- PD10 / UN1
+def pd10(model):
+    r = RuleResult('PD10', 'a handler factory is given text, not tokens: a closure that emits a captured '
+                   'token list would output the tokens of the definition with the positions of the '
+                   'definition (possibly of another text) at every use', floor=1)
+    n = 0
+    for f in model.all_funcs():
+        if isinstance(f.node, ast.Lambda) or not isinstance(f.node.body, list) or not f.nested:
+            continue
+        # factory: returns one of its nested functions
+        rets = [x for x in T.func_returns(f) if isinstance(x, ast.Name) and x.id in f.nested]
+        if not rets:
+            continue
+        inner = f.nested[rets[0].id]
+        free = [p for p in f.params if any(isinstance(x, ast.Name) and x.id == p for x in ast.walk(inner.node))]
+        if not free:
+            continue
+        # parameters used as a token list inside the closure
+        listy = set()
+        for x in ast.walk(inner.node):
+            if isinstance(x, ast.Call) and T.call_name(x) in ('copy', 'extend') and isinstance(x.func, ast.Attribute):
+                if isinstance(x.func.value, ast.Name) and x.func.value.id in free and T.call_name(x) == 'copy':
+                    listy.add(x.func.value.id)
+                for a in x.args:
+                    if isinstance(a, ast.Name) and a.id in free:
+                        listy.add(a.id)
+            if isinstance(x, ast.AugAssign) and isinstance(x.value, ast.Name) and x.value.id in free:
+                listy.add(x.value.id)
+            if isinstance(x, ast.Starred) and isinstance(x.value, ast.Name) and x.value.id in free:
+                listy.add(x.value.id)
+            if isinstance(x, ast.BinOp) and isinstance(x.op, ast.Add):
+                for s_ in (x.left, x.right):
+                    if isinstance(s_, ast.Name) and s_.id in free and isinstance(x.left if s_ is x.right else x.right, ast.List):
+                        listy.add(s_.id)
+        if not listy:
+            n += 1
+            r.ok(f.node, 'factory %s captures no token list' % f.name, sample=False)
+            continue
+        for m in model.mods.values():
+            for c in ast.walk(m.tree):
+                if isinstance(c, ast.Call) and (model.resolve_call(c) or (0, 0))[1] is f:
+                    for p in listy:
+                        k = f.params.index(p)
+                        if k < len(c.args):
+                            a = c.args[k]
+                            vals = T.resolve_local(model, a) if isinstance(a, ast.Name) else [a]
+                            if isinstance(a, ast.Name) and all(v is a for v in vals):
+                                vals = []
+                            allparams = set()
+                            g = c._fn
+                            while g is not None:
+                                allparams |= set(g.params)
+                                if isinstance(a, ast.Name) and not vals:
+                                    # a free variable of the calling closure: defined in an enclosing function
+                                    vals = [s_.value for s_ in iter_scope(g.node) if isinstance(s_, ast.Assign)
+                                            and any(isinstance(t_, ast.Name) and t_.id == a.id for t_ in s_.targets)]
+                                g = g.outer
+                            tok = [v for v in vals if isinstance(v, ast.Subscript) and isinstance(v.value, ast.Name)
+                                   and v.value.id in allparams]
+                            n += 1
+                            if tok:
+                                r.fail(c, 'the handler factory %s receives the argument tokens %s and its closure '
+                                       'emits them as they are: at every use they carry the positions of the '
+                                       'definition' % (f.name, unparse(tok[0])),
+                                       witness='\\newtheorem in the --defs file, \\begin{theorem} in a shorter document')
+                            else:
+                                r.ok(c, 'factory receives no raw argument tokens', nontrivial=True)
+    r.instances = max(r.instances, 1)
+    return r
+
+
+def un1(model):
+    r = RuleResult('UN1', 'units in the XML report: once a character offset has been converted to a byte '
+                   'count (len(text[..].encode())), it is not used to slice or index the text again',
+                   floor=1)
+    for f in model.all_funcs():
+        if isinstance(f.node, ast.Lambda) or not f.mod.short.startswith('shell.gen'):
+            continue
+        conv = []   # (name, stmt)
+        for n in iter_scope(f.node):
+            if isinstance(n, ast.Assign) and isinstance(n.targets[0], ast.Name) and isinstance(n.value, ast.Call) \
+                    and getattr(n.value.func, 'id', '') == 'len' and n.value.args \
+                    and any(isinstance(x, ast.Call) and T.call_name(x) == 'encode' for x in ast.walk(n.value.args[0])):
+                conv.append((n.targets[0].id, n))
+        for name, st in conv:
+            blk = st._parent
+            seq = next((getattr(blk, fld) for fld in ('body', 'orelse') if st in getattr(blk, fld, [])), [])
+            later = seq[seq.index(st) + 1:] if st in seq else []
+            bad = None
+            for s in later:
+                for x in ast.walk(s):
+                    if isinstance(x, ast.Subscript) and any(isinstance(y, ast.Name) and y.id == name
+                                                            for y in ast.walk(x.slice)):
+                        bad = x
+                if any(isinstance(t, ast.Name) and t.id == name and isinstance(t.ctx, ast.Store) for t in ast.walk(s)):
+                    break
+            if bad is not None:
+                r.fail(bad, '%s holds a byte count after the conversion in line %d, but is used as a character '
+                       'index in %s: the excerpt no longer marks the characters that offset and length select'
+                       % (name, st.lineno, unparse(bad)[:50]),
+                       witness='--output xml-b, non-ASCII text in front of the mark and a multi-byte character in it')
+            else:
+                r.ok(st, '%s is converted to bytes after its last use as a character index' % name, nontrivial=True)
+    r.instances = max(r.instances, 1)
+    return r
